@@ -25,7 +25,12 @@ def fock_basis(N: int, n: int) -> list:  # noqa: N803
 
 
 def _sums(length: int, total_sum: int) -> Iterable:
-    if length == 1:
+    # No modes (e.g. every mode of a circuit is heralded), only the empty state
+    # with zero photons exists
+    if length == 0:
+        if total_sum == 0:
+            yield []
+    elif length == 1:
         yield [
             total_sum,
         ]
